@@ -205,6 +205,31 @@ pub fn run(ctx: &mut Ctx) {
         }
         path_case(ctx, &parser, &format!("path{}", len + 1), r, idx, false, &d);
     }
+    // --- the public `find` called directly (no runtime in front of it): every path of length 0..2 over
+    // keys that exist, keys that do not, indices in and out of range ---
+    {
+        use liquid_core::model::{find, ScalarCow, ValueView};
+        let root = Value::Object(d.clone());
+        let keys: Vec<Value> = vec![s("a"), s("o"), s("missing"), s("str"), s("n"), i(0), i(-1), i(9), s("first"), s("size"), s("xs"), s("zz")];
+        let mut paths: Vec<Vec<Value>> = vec![vec![]];
+        for k1 in &keys {
+            paths.push(vec![k1.clone()]);
+            for k2 in &keys {
+                paths.push(vec![k1.clone(), k2.clone()]);
+            }
+        }
+        for path in paths {
+            let scalars: Vec<ScalarCow<'_>> = path.iter().map(|v| v.as_scalar().unwrap().into_owned()).collect();
+            let r = std::panic::catch_unwind(std::panic::AssertUnwindSafe(|| find(root.as_view(), &scalars).map(|v| v.into_owned())));
+            let obs = match r {
+                Ok(Ok(v)) => format!("ok {}", crate::proto::value_tokens_sorted(&v)),
+                Ok(Err(_)) => "err".to_string(),
+                Err(_) => "PANIC -".to_string(),
+            };
+            let ptoks: Vec<String> = path.iter().map(crate::proto::value_tokens).collect();
+            ctx.emit(format!("findapi find {} {} {} => {}", crate::proto::value_tokens(&root), path.len(), ptoks.join(" "), obs).replace("  ", " "));
+        }
+    }
     // --- literals ---
     let bounds: [i128; 14] = [0, 1, -1, 9, 10, 99, 100, i64::MAX as i128, i64::MAX as i128 - 1, i64::MIN as i128, i64::MIN as i128 + 1,
         i64::MAX as i128 + 1, i64::MIN as i128 - 1, 12345678901234567890];
